@@ -18,6 +18,8 @@ var checks = map[string]func(tier string){
 	"C01": sworld.RunC01,
 	"C04": sworld.RunC04,
 	"C05": sworld.RunC05,
+	"C06": sworld.RunC06,
+	"C09": sworld.RunC09,
 	"C11": sworld.RunC11,
 	"C12": sworld.RunC12,
 	"C14": c14.Run,
